@@ -150,6 +150,11 @@ class VSQS(Ansatz):
 
     def update_var_params(self, var_params):
         """Update the variational parameters in the circuit without rebuilding."""
+        self.var_params = self.set_var_params(var_params)
+        # Gates whose angle was zero at build time are not in the circuit: rebuild in that case.
+        if len(self.circuit._variational_gates) != self.n_var_gates * (self.intervals - 1):
+            self.build_circuit(var_params)
+            return
         for i in range(self.intervals-1):
             self._update_gate_params_for_qu_op(self.h_init_list, self.n_var_gates * i, var_params[self.stride*i], self.n_h_init)
             self._update_gate_params_for_qu_op(self.h_final_list, self.n_var_gates * i + self.n_h_init * self.trotter_order,
